@@ -38,8 +38,16 @@ def sizeof_nodes(e):
 
 def endian_test(f, prog, cond, other_val, depth=0):
     """Is `cond` a comparison (stream byte-order member) == other_val ?  Returns (True, polarity) / (False, reason).
-    The member may be reached through an accessor whose body returns it (inlined to depth 2)."""
+    The member may be reached through an accessor whose body returns it (inlined to depth 2).
+    Conjuncts that the front end evaluates to a constant true (e.g. sizeof(T) > 1) are ignored."""
     c = strip(cond)
+    while c.get('k') == 'bin' and c.get('op') == '&&':
+        if const_val(c['y']) == 1:
+            c = strip(c['x'])
+        elif const_val(c['x']) == 1:
+            c = strip(c['y'])
+        else:
+            break
     if c.get('k') != 'bin' or c.get('op') not in ('==', '!='):
         return False, 'condition is not an (in)equality'
     for a, b in ((c['x'], c['y']), (c['y'], c['x'])):
@@ -136,10 +144,63 @@ def run(ctx):
             check_array_writer(ctx, prog, f, other_val)
     ctx.floor('C16.array', n_arr, 9)
 
+    # ---------------------------------------------------------------- partial transfers of the raw socket/file primitives
+    check_partial(ctx, prog)
+
     # ---------------------------------------------------------------- StreamBufferReader
     check_reader(ctx, prog, other_val)
     check_swap(ctx, prog)
     return __doc__.split('\n\n', 1)[1]
+
+
+def check_partial(ctx, prog):
+    """The blocking read/write loops of Socket_ complete partial transfers: every retry passes the not-yet-transferred
+    remainder (buffer position and byte count both advanced by what the OS call returned)."""
+    found = 0
+    for q_, sig in (('asl::Socket_::read', '(void *,int)'), ('asl::Socket_::write', '(const void *,int)')):
+        for f in prog.fn(q_, sig):
+            found += 1
+            ctx.analysed(f)
+            loops = [s_ for s_ in ir.walk_stmts(f['body']) if s_.get('k') in ('do', 'while', 'for')]
+            ios = []
+            for lp in loops:
+                for st in ir.walk_stmts(lp['body']):
+                    if st.get('k') == 'decl':
+                        for v in st['vars']:
+                            ini = strip(v.get('init') or {})
+                            if ini.get('k') == 'call' and not ini.get('clsp') and ini.get('fn') in ('read', 'recv', 'send', 'write'):
+                                ios.append((lp, v, ini))
+            role = f['n'] + f['sig'] + ':retry passes the remainder'
+            if len(ios) != 1:
+                ctx.undecided('C16.partial', f['pq'], role, fwhere(f), 'no single OS transfer call inside a retry loop (found %d)' % len(ios))
+                continue
+            lp, nv, call = ios[0]
+            # variables advanced by the returned count inside the loop
+            adv = set()
+            for e in ir.stmt_exprs(lp['body']):
+                if e.get('k') == 'bin' and e.get('op') in ('+=', '-=', '='):
+                    lhs = strip_lv(e['x'])
+                    if lhs.get('k') == 'var' and any(w.get('k') == 'var' and w.get('id') == nv['id'] for w in walk_expr(e['y'])):
+                        if e['op'] != '=' or any(w.get('k') == 'var' and w.get('id') == lhs['id'] for w in walk_expr(e['y'])):
+                            adv.add(lhs['id'])
+            buf, ln = call['a'][1], call['a'][2]
+            def uses_adv(x):
+                return any(w.get('k') == 'var' and w.get('id') in adv for w in walk_expr(x))
+            ctx.evaluations += 3
+            okb, okl = uses_adv(buf), uses_adv(ln)
+            okc = lp.get('c') is not None and uses_adv(lp['c'])
+            ctx.check(okb and okl and okc, 'C16.partial', f['pq'], role, fwhere(f, call['l']),
+                      'buffer position, byte count and loop condition all advance with the returned count',
+                      'after a short transfer the retry does not pass exactly the remainder: buffer argument advances=%s, length argument advances=%s, loop condition advances=%s '
+                      '(`%s`): following values are over-read/over-written or skipped' % (okb, okl, okc, pe(call)))
+    ctx.floor('C16.partial', found, 2)
+    for q_, fn_, sig in (('asl::File::read', 'fread', '(void *,int)'), ('asl::File::write', 'fwrite', '(const void *,int)')):
+        for f in prog.fn(q_, sig):
+            ctx.analysed(f)
+            cs = [e for e in fn_exprs(f) if e.get('k') == 'call' and e.get('fn') == fn_]
+            okk = len(cs) == 1 and const_val(cs[0]['a'][1]) == 1 and strip(cs[0]['a'][2]).get('k') == 'var' and strip(cs[0]['a'][0]).get('k') == 'var'
+            ctx.check(okk, 'R-UNITS', f['pq'], '%s(p, 1, n, file)' % fn_, fwhere(f), 'element size 1, count = byte count',
+                      '%s does not transfer n items of size 1 from/to p' % q_)
 
 
 def check_scalar(ctx, prog, f, et, is_write, other_val):
@@ -218,8 +279,32 @@ def check_array_writer(ctx, prog, f, other_val):
     # swap branch: a loop over all elements calling this class's scalar operator<<
     loops = [x for x in ir.walk_stmts(swap_branch) if x.get('k') in ('for', 'while')] if swap_branch else []
     elem_calls = [e for e in ir.stmt_exprs(swap_branch) if e.get('k') == 'call' and e.get('pq') == name] if swap_branch else []
-    ctx.check(bool(loops) and bool(elem_calls), 'C16.array', name, inst + ':swapped-branch', fwhere(f, s['l']),
-              'non-native order: element-wise loop through the scalar operator', 'non-native order branch does not write every element through the scalar operator')
+    swaps_in_loop = [e for lp in loops for e in ir.stmt_exprs(lp) if e.get('k') == 'call' and e.get('pq') in ('asl::swapBytes', 'asl::bytesSwapped')]
+    bulk = [e for e in ir.stmt_exprs(swap_branch) if is_raw_transfer(e)] if swap_branch else []
+    if loops and elem_calls:
+        ctx.ok('C16.array', name, inst + ':swapped-branch', fwhere(f, s['l']), 'non-native order: element-wise loop through the scalar operator')
+    elif loops and swaps_in_loop and len(bulk) == 1:
+        ctx.ok('C16.array', name, inst + ':swapped-branch', fwhere(f, s['l']), 'non-native order: every element swapped in a loop, then one bulk transfer (byte count by R-UNITS, source untouched by :source-immutable)')
+    else:
+        ctx.violation('C16.array', name, inst + ':swapped-branch', fwhere(f, s['l']), 'non-native order branch neither writes every element through the scalar operator nor swaps every element before a bulk transfer')
+    # the writer must not modify the caller's array: a local Array copy-constructed from the parameter shares its storage
+    pid = f['params'][0]['id']
+    shared = set([pid])
+    for st in ir.walk_stmts(f['body']):
+        if st.get('k') == 'decl':
+            for v in st['vars']:
+                ini = strip(v.get('init') or {})
+                if ini.get('k') == 'construct' and ini.get('copy') and ini.get('a') and strip(ini['a'][0]).get('k') == 'var' and strip(ini['a'][0]).get('id') in shared:
+                    shared.add(v['id'])
+    mut = []
+    for e in fn_exprs(f):
+        if e.get('k') == 'call' and e.get('clsp') == 'asl::Array' and e.get('obj') is not None and 'const' not in (e.get('sig') or '').split(')')[-1]:
+            o = strip(e['obj'])
+            if o.get('k') == 'var' and o.get('id') in shared and (e.get('pq') or '').split('::')[-1] in ('operator[]', 'data', 'ptr', 'operator*', 'first', 'last', 'all', 'sort', 'reverse'):
+                mut.append(e)
+    ctx.check(not mut, 'C16.array', name, inst + ':source-immutable', fwhere(f, mut[0]['l'] if mut else None),
+              'the writer only reads the caller\'s array', 'the writer obtains mutable access (`%s`) to storage shared with the caller\'s array: '
+              'a handle copy is not a deep copy, so swapping in place corrupts the source for later writes' % (pe(mut[0]) if mut else ''))
     raws = [e for e in ir.stmt_exprs(raw_branch) if is_raw_transfer(e)] if raw_branch else []
     ctx.check(len(raws) == 1, 'C16.array', name, inst + ':native-branch', fwhere(f, s['l']),
               'native order: one raw transfer (its byte count is decided by R-UNITS)', 'native order branch has %d raw transfers' % len(raws))
